@@ -655,6 +655,27 @@ def fusion_capture_shape(tree: ast.AST) -> bool:
     return False
 
 
+def beta_capture_shape(tree: ast.AST) -> bool:
+    """a lambda that func_adl beta-reduces while fusing (second step of a Select/Where/SelectMany chain, or applied
+    directly) has a parameter that a nested lambda rebinds and uses: the substitution goes into the nested lambda"""
+    def shadowed_use(lam: ast.Lambda) -> bool:
+        ps = set(params(lam))
+        for inner in all_lambdas(lam.body):
+            for p in params(inner):
+                if p in ps and any(isinstance(m, ast.Name) and m.id == p for m in ast.walk(inner.body)):
+                    return True
+        return False
+
+    for n in ast.walk(tree):
+        if isinstance(n, ast.Call) and isinstance(n.func, ast.Lambda) and shadowed_use(n.func):
+            return True
+        for op in ("Select", "Where", "SelectMany"):
+            if is_method_call(n, op) and any(is_method_call(n.func.value, o2) for o2 in ("Select", "Where", "SelectMany")):
+                if shadowed_use(n.args[0]):
+                    return True
+    return False
+
+
 def uses_trick(tree: ast.AST) -> bool:
     return any(isinstance(n, ast.Call) and isinstance(n.func, ast.Subscript) and isinstance(n.func.value, ast.Tuple)
                and n.func.value.elts and isinstance(n.func.value.elts[0], ast.Lambda) for n in ast.walk(tree))
@@ -680,6 +701,8 @@ def classify_alpha(variant: ast.AST, ra, rb) -> str:
         return "c08:param-named-like-operator"
     if fusion_capture_shape(variant):
         return "c08:fusion-capture"
+    if beta_capture_shape(variant):
+        return "c08:beta-capture"
     return "c08:alpha"
 
 
